@@ -12,7 +12,7 @@ from common import lean
 from common.ctx import ROOT, stable_hash
 from common.shard import ShardResult, run_shards
 from engines import irgen
-from engines.irlib import World, execute, dump_impl, canon_model_dump, prepare, cleanup, KINDS, model_apply, COMPOUND
+from engines.irlib import World, execute, dump_impl, canon_model_dump, prepare, cleanup, KINDS, model_apply, COMPOUND, bundle_expect
 from registry import META
 
 STRUCT_EVENTS = ["cable_add_wire", "cable_remove_wire", "definition_add_port", "definition_remove_port",
@@ -471,6 +471,7 @@ def run_script(ops_or_len, rng, profile, drv, res, with_listeners=True, outcomes
             for (kind, lab) in operands(op):
                 world.get(kind, lab)                 # materialise operands outside the recording window
             tok = prepare(world, op)
+            bexp = bundle_expect(world, op) if op["t"] == "bundleFlag" else None
             sink.raw = []
             sink.early = []
             sink.seen_disc = set()
@@ -481,7 +482,8 @@ def run_script(ops_or_len, rng, profile, drv, res, with_listeners=True, outcomes
             cleanup(world, op, tok)
             outs.append(out)
             counts = world.counts()
-            m = model_apply(drv, op, {"nI": counts["instance"] + 1})
+            # a shape-flag assignment is no structural change: not a model op, nothing is announced
+            m = model_apply(drv, op, {"nI": counts["instance"] + 1}) if bexp is None else {"res": bexp, "events": [], "prims": []}
             if "error" in m:
                 raise RuntimeError("driver rejected op %r: %s" % (op, m["error"]))
             cur = dump_impl(world)
